@@ -276,6 +276,24 @@ def rule_errors_as_values(ck, facts, cg):
                     ck.bad(R, key, "%s hands the MIR generator an inference context produced by %s without inspecting that context's errors on the path: an ill-typed program reaches the 'typing guarantees it' aborts of mirgen" % (f.short, cn.split("::", 1)[-1]), f.where(s))
 
 
+def _occurs_fn(facts):
+    """the occurs check by role: the bool function of the unification module that dispatches on `Type` (with an arm for
+    type variables), calls itself, and is consulted before a type variable is bound (its result guards a store)"""
+    from ..rules import cover
+
+    lang = facts.crate(roles.LANG)
+    cands = []
+    for f in lang.fns:
+        if "::typing::unification::" not in f.path or f.kind != "fn" or f.local_ty(0) != "bool":
+            continue
+        cov = cover.coverage(facts, f, roles.TYPE)
+        if cov is None or cov.primary is None or "Intermediate" not in cov.primary_handled():
+            continue
+        if any((callee(t) or "") == f.path for g in facts.family(roles.LANG, f.root) for _, t in g.calls()):
+            cands.append(f)
+    return cands
+
+
 def rule_occurs(ck, facts):
     """the occurs check of unification must look at every component type: a variable bound to a type that contains
     itself makes every later traversal of that type recurse without end (stack overflow instead of CircularType)"""
@@ -283,8 +301,8 @@ def rule_occurs(ck, facts):
     R = "C04.occurs"
     ck.rule(R, "occur_check visits every component of a composite type: each Type variant whose payload holds type references has its own arm, and no path of such an arm answers `false` before every type-valued payload field was handed to a (recursive) check")
     lang = facts.crate(roles.LANG)
-    fs = [f for f in lang.fns if f.short.endswith("typing::unification::occur_check") and f.kind == "fn"]
-    ck.require(R, len(fs) == 1, "anchor|occur_check", "typing::unification::occur_check not found")
+    fs = _occurs_fn(facts)
+    ck.require(R, len(fs) == 1, "anchor|occur_check", "the occurs check (recursive bool function over Type in typing::unification) was not found")
     if len(fs) != 1:
         return
     f = fs[0]
@@ -335,7 +353,7 @@ def rule_occurs_resolved(ck, facts):
     from ..rules import cover
     R = "C04.occurs"
     lang = facts.crate(roles.LANG)
-    fs = [f for f in lang.fns if f.short.endswith("typing::unification::occur_check") and f.kind == "fn"]
+    fs = _occurs_fn(facts)
     if len(fs) != 1:
         return
     f = fs[0]
